@@ -19,6 +19,9 @@ OBLIGATIONS = [
     "NanoVerif.C16.radial_similarity",
     "NanoVerif.C16.transformed_denotes",
     "NanoVerif.C16.decomposeUniform_exact",
+    "NanoVerif.TrProofs.scale_viewbox_eq",
+    "NanoVerif.TrProofs.map_font_space_eq",
+    "NanoVerif.TrProofs.advance_width_eq",
 ]
 DESIGN_REF = "DESIGN.md §5 C01"
 LEVEL_TEXT = ("Partial proof. Proved in Lean: `paintedLayers_eq_spec` — for EVERY picosvg-normal body (any number of shapes, any nesting depth/width of "
@@ -211,6 +214,12 @@ def check_font_renders(ctx, res, case, out, site="colr1-render", npts=9):
     hmtx = font["hmtx"]
     user = tuple(cfg.transform)
     n_cmp = 0
+    # hypothesis of C03.walk_matches_colr (the traversal's accumulated transform is the COLR one): nanoemoji never nests
+    # transform paints above a PaintGlyph.  Observed on every real build; a build that breaks it invalidates the model's premise.
+    nest = fontgen.max_transform_nesting(font)
+    res.stat("colr:transform-nesting:%d" % nest)
+    if nest > 1:
+        res.add_tie_break("singleTransform hypothesis (C03.walk_matches_colr) on a real COLR graph", {"case": case}, "<= 1", nest)
     for i, pico in enumerate(out["picosvgs"]):
         cps = out["codepoints"][i]
         glyphs = shaper.shape(font, cps)
